@@ -128,6 +128,9 @@ inductive Op where
   dequeued), the mailbox and the state (dropped when the actor task ends) all go — for the ports
   exactly a kill. Nothing to fail when no message is being handled. -/
   | fail (a : Nat)
+  /-- `handle a act` and `advance d` in ONE step: the handler's action and the clock reaching
+  `now + d` are seen together by the callers (a reply available at the deadline instant) -/
+  | handleAt (a : Nat) (act : Act) (d : Nat)
   deriving Repr
 
 def accepting (s : S) (a : Nat) : Bool :=
@@ -404,6 +407,7 @@ def stepCore (s : S) : Op → S
     match s.actors[a]? with
     | some x => if x.alive && !x.mailbox.isEmpty then exitActor s a else s
     | none => s
+  | .handleAt a act d => { handleCore s a act with now := (handleCore s a act).now + d }
   | .cast a v =>
     { s with actors := s.actors.modify a (fun x =>
         if x.alive && !x.draining then { x with mailbox := x.mailbox ++ [.fwd v] } else x) }
